@@ -3,5 +3,5 @@
 d=$(readlink -f "$1"); shift
 tmp=$(mktemp -d /tmp/seedtry.XXXX)
 mkdir -p $tmp/repo && cp -r /repo/src $tmp/repo/ && (cd $tmp/repo && git init -q . && git apply "$d/patch.diff") || { echo "patch failed"; rm -rf $tmp; exit 3; }
-VERIF_REPO=$tmp/repo python3-vt /tmp/dbg.py "$@" | grep -v "^    proved" | cut -c1-230
+VERIF_REPO=$tmp/repo python3-vt /verif/tools/dbg.py "$@" | grep -v "^    proved" | cut -c1-230
 rm -rf $tmp
